@@ -35,6 +35,12 @@ def worker_main(prop, tier, seed, shard, nshards, outfile):
     common.bind_repo()
     mod = load(prop)
     t0 = time.time()
+    cov = None
+    if os.environ.get("VERIF_COVERAGE", "1") == "1":
+        from . import cover
+        import lbfgsb
+
+        cov = cover.LineCoverage(os.path.dirname(lbfgsb.__file__)).start()
     budget = float(os.environ.get("VERIF_BUDGET_S", SOFT_BUDGET[tier]))
     agg = dict(cases=0, nontrivial_keys=[], counters={}, maxima={}, skipped={}, samples=[], violations=[],
                crashed=[], truncated=False, generated=0)
@@ -79,6 +85,9 @@ def worker_main(prop, tier, seed, shard, nshards, outfile):
                 agg["truncated"] = True
                 break
     agg["nontrivial_keys"] = sorted(keys)
+    if cov is not None:
+        cov.stop()
+        agg["lines"] = cov.result()
     agg["wall_s"] = time.time() - t0
     with open(outfile, "w") as fh:
         json.dump(agg, fh)
@@ -183,6 +192,7 @@ def run_check(prop, tier, seed, jobs):
     total = dict(cases=0, counters={}, maxima={}, skipped={}, samples=[], violations=[], crashed=[], truncated=0)
     keys = set()
     failed_workers = 0
+    lines_hit = {}
     for p, out, log in procs:
         if not os.path.exists(out):
             failed_workers += 1
@@ -203,6 +213,8 @@ def run_check(prop, tier, seed, jobs):
         total["violations"].extend(a["violations"])
         total["crashed"].extend(a["crashed"])
         total["truncated"] += 1 if a["truncated"] else 0
+        for fn, ls in a.get("lines", {}).items():
+            lines_hit.setdefault(fn, set()).update(ls)
     inconclusive = []
     if dead:
         inconclusive.append("monitor self-test failed: " + "; ".join(dead))
@@ -272,6 +284,16 @@ def run_check(prop, tier, seed, jobs):
         "floors": floors,
         "tree": common.REPO,
     }
+    if lines_hit:
+        try:
+            from . import cover
+            import lbfgsb
+
+            summ, named = cover.summarise({k: sorted(v) for k, v in lines_hit.items()}, os.path.dirname(lbfgsb.__file__))
+            cov["line_coverage_of_package"] = summ
+            cov["named_branches"] = named
+        except Exception as e:  # evidence only
+            cov["line_coverage_of_package"] = f"unavailable: {e!r}"
     if hasattr(mod, "exhaustive"):
         exh = mod.exhaustive(tier)
         if exh:
